@@ -92,6 +92,6 @@ C42_ExtentsOrdered ==
 CasesFile == IF "VERIF_CASES" \in DOMAIN IOEnv THEN IOEnv.VERIF_CASES ELSE "cases.ndjson"
 GenQ == { x \in Queries(TRUE) : x.s <= x.e /\ AlignedQ(x) }
 Hists == [1..HistLen -> GenQ]
-CaseSet == { [iv |-> i, world |-> wi, minext |-> MinExt, T |-> T, hist |-> h] : i \in Ivs, wi \in WorldIds, h \in Hists }
+CaseSet == { [iv |-> i, world |-> World(wi), minext |-> MinExt, T |-> T, hist |-> h] : i \in Ivs, wi \in WorldIds, h \in Hists }
 ASSUME ndJsonSerialize(CasesFile, SetToSeq(CaseSet))
 =============================================================================
